@@ -182,9 +182,10 @@ static ssize_t next_part(const message &msg, size_t len)
 		
 		while (clen--) {
 			size_t curr = cont->iov_len;
-			if (len < curr) {
+			/* limit is relative to message start */
+			if (len - total <= curr) {
 				clen = 0;
-				curr = len;
+				curr = len - total;
 			}
 			if ((end = (char *) memchr(dest = (const char *) cont->iov_base, ':', curr))) {
 				return total + (end - dest);
